@@ -318,6 +318,8 @@ def nud__child_path(self: XPathToken) -> XPathToken:
 def led__child_or_descendant_path(self: XPathToken, left: XPathToken) -> XPathToken:
     if left.symbol in ('/', '//', ':', '[', '$'):
         pass
+    elif left.symbol == '(' or left.label == 'function':
+        pass  # a FilterExpr (a parenthesized expression or a function call) can start a path
     elif left.label not in self.parser.PATH_STEP_LABELS and \
             left.symbol not in self.parser.PATH_STEP_SYMBOLS:
         raise self.wrong_syntax()
